@@ -183,6 +183,8 @@ def handler_part(chk, quick):
             for (tr, pc, r) in res:
                 if getattr(r, 'status', None) == 'pathend': continue
                 name = 'A parallel_exception_handler/%d elements, thread order %r/path %s' % (n, order, ''.join('T' if d.taken else 'F' for d in tr if not d.forced) or '-')
+                if r.status == 'unsupported':
+                    chk.fail_closed.append('%s: %r' % (name, getattr(r, 'error', None))); continue
                 if r.status != 'ok':
                     chk.ob(name + '/handler returns or rethrows', 'violated', True, 0, {'status': r.status, 'error': repr(getattr(r, 'error', None))[:300]})
                     chk.violation('C15/handler/%s' % r.status, '%s: %s %r' % (name, r.status, getattr(r, 'error', None)), {'n': n, 'order': order, 'status': r.status, 'error': repr(getattr(r, 'error', None))})
